@@ -73,3 +73,78 @@ def lower_bounds(fn, atom, pol):
         t, c = diff(b, a)
         out.append((t, c - (1 if op == '<' else 0)))
     return out
+
+
+# ---- the same on rendered text (fully parenthesised infix, as cfg.Fn.render writes it): one side of a comparison in a canonical
+# arrangement of its additive terms.  Terms are never moved across the comparison (a - b <= c is not a <= b + c in unsigned arithmetic).
+def _split_top(s):
+    """(left, op, right) when s is `(L op R)` with op one of + - * at parenthesis depth 1, else None"""
+    if not (s.startswith('(') and s.endswith(')')):
+        return None
+    depth = 0
+    for i, ch in enumerate(s):
+        if ch == '(':
+            depth += 1
+        elif ch == ')':
+            depth -= 1
+            if depth == 0 and i != len(s) - 1:
+                return None             # `(T)(x)` or `(a)(b)`: the outer parentheses do not match each other
+    depth = 0
+    i = 0
+    while i < len(s):
+        ch = s[i]
+        if ch == '(' or ch == '[':
+            depth += 1
+        elif ch == ')' or ch == ']':
+            depth -= 1
+        elif depth == 1 and ch == ' ' and s[i:i + 3] in (' + ', ' - ', ' * ') :
+            return s[1:i], s[i + 1], s[i + 3:-1]
+        i += 1
+    return None
+
+
+def lin_text(s):
+    s = s.strip()
+    try:
+        return Counter(), int(s)
+    except ValueError:
+        pass
+    sp = _split_top(s)
+    if sp is None:
+        if s.startswith('(') and s.endswith(')') and _balanced(s[1:-1]):
+            return lin_text(s[1:-1])
+        return Counter({s: 1}), 0
+    l, op, r = sp
+    a, ca = lin_text(l)
+    b, cb = lin_text(r)
+    if op in '+-':
+        out = Counter(a)
+        for t, c in b.items():
+            out[t] += c if op == '+' else -c
+        return Counter({t: c for t, c in out.items() if c}), ca + (cb if op == '+' else -cb)
+    if not a:
+        return Counter({t: c * ca for t, c in b.items() if c * ca}), cb * ca
+    if not b:
+        return Counter({t: c * cb for t, c in a.items() if c * cb}), ca * cb
+    return Counter({s: 1}), 0
+
+
+def _balanced(s):
+    d = 0
+    for ch in s:
+        if ch == '(':
+            d += 1
+        elif ch == ')':
+            d -= 1
+            if d < 0:
+                return False
+    return d == 0
+
+
+def canon_text(s):
+    """canonical spelling of one side: constant first, then the terms sorted"""
+    t, c = lin_text(s)
+    if not t:
+        return str(c)
+    parts = ['%+d*%s' % (k, v) for v, k in sorted(t.items())]
+    return ('%d ' % c if c else '') + ' '.join(parts) if (c or len(parts) > 1 or list(t.values()) != [1]) else list(t)[0]
